@@ -53,6 +53,10 @@ def _gen_docs(r, n=None, prefix=''):
         d = g.mapping(0, min_keys=1, max_keys=3)
         if r.random() < 0.5:
             d['items'].append(['lst', emit.q([g.value(2) for _ in range(r.randrange(1, 4))], r.choice([None, None, '!merge', '!del', '!force']))])
+        if r.random() < 0.15:
+            # a block scalar whose text looks like a number / bool / null: it is a string, with or without a marker tag
+            d['items'].append([r.choice([k for k in ('blk', 'a', 'c') if k not in [kk for kk, _ in d['items']]]), {'k': 'blk', 'tag': None, 'style': r.choice(['|-', '|', '>-']),
+                                                              'text': r.choice(['123', '4.5', 'true', 'null', '~', '0x1F', 'plain text'])}])
         docs.append(_sanitise(d, top=True))
     return docs
 
@@ -237,7 +241,7 @@ def _mark(node, r, tag, p=0.3):
     n_marked = [0]
 
     def walk(n, top):
-        if n['k'] in ('map', 'seq', 's') and not n.get('tag') and not top and r.random() < p:
+        if n['k'] in ('map', 'seq', 's', 'blk') and not n.get('tag') and not top and r.random() < (p if n['k'] != 'blk' else 0.7):
             n['tag'] = tag
             n_marked[0] += 1
             if n['k'] == 's' and n['v'] is None:
